@@ -718,7 +718,7 @@ fn run_gated(
         loop {
             let predicted = if diverged { None } else { Some(g.states[st].next.clone()) };
             let idle_expected = predicted.as_ref().map(|c| c.c == "idle").unwrap_or(false);
-            let arrival = run.wait_arrival(if idle_expected || diverged { Duration::from_millis(if diverged { 30 } else { 3 }) } else { Duration::from_secs(5) });
+            let arrival = run.wait_arrival(if idle_expected || diverged { Duration::from_millis(if diverged { 30 } else { 3 }) } else { Duration::from_millis(1500) });
             match (arrival, predicted) {
                 (None, Some(p)) if p.c == "idle" => break,
                 (None, None) => break,
